@@ -65,7 +65,7 @@ func Load(repo string, o LoadOpts) (*World, error) {
 		return nil, err
 	}
 	st := &foldState{failed: map[string]bool{}}
-	for round := 0; round < 40 && !noFold; round++ {
+	for round := 0; round < 160 && !noFold; round++ {
 		add := w.foldRound(o.Overlay, st)
 		if add == nil {
 			break
